@@ -4,13 +4,26 @@
 mod verif_c02_cycles {
     use super::*;
     use crate::memory::verif_mem::Placed;
+    pub(crate) use std::cmp::PartialEq as PEq;
+
+    /// By restriction: the vectors of these harnesses hold vectors and numbers only. Elements read back
+    /// from a Vec buffer have an unknown discriminant to CBMC, so without these cuts every level of the
+    /// recursion also encodes the tuple arm and the hashbrown iteration of the HashMap arm.
+    fn hash_map_eq_not_modelled(_a: &ObjHashMap, _b: &ObjHashMap) -> bool {
+        panic!("verif: ObjHashMap == not modelled in the vector-cycle harnesses")
+    }
+    fn tuple_eq_not_modelled(_a: &ObjTuple, _b: &ObjTuple) -> bool {
+        panic!("verif: ObjTuple == not modelled in the vector-cycle harnesses")
+    }
 
     /// Two DISTINCT vectors that contain each other: `a == b` recurses a -> b -> a -> ... without bound.
     /// With the recursion unwound 6 times the unwinding assertion of the recursion fails: evaluation is
     /// deeper than any fixed bound for an input of size 2 (natively: the process aborts with a stack
     /// overflow). This is the recorded finding `vec-eq-cycle`.
     #[kani::proof]
-    #[kani::unwind(6)]
+    #[kani::unwind(4)]
+    #[kani::stub(<crate::object::ObjHashMap as crate::object::verif_c02_cycles::PEq>::eq, hash_map_eq_not_modelled)]
+    #[kani::stub(<crate::object::ObjTuple as crate::object::verif_c02_cycles::PEq>::eq, tuple_eq_not_modelled)]
     fn c02_vec_eq_mutually_containing_terminates() {
         let mut a = Placed::new(RefCell::new(ObjVec::new(Gc::dangling())));
         let mut b = Placed::new(RefCell::new(ObjVec::new(Gc::dangling())));
@@ -24,15 +37,28 @@ mod verif_c02_cycles {
         std::mem::forget(b);
     }
 
-    /// Controls: a vector that contains itself compared with itself (identity short-cut), and two
-    /// separately built acyclic nestings - both terminate within the same bound and give the right answer.
+    /// Control 1: a vector that contains itself compared with itself terminates (identity short-cut).
     #[kani::proof]
-    #[kani::unwind(6)]
-    fn c02_vec_eq_terminates_on_self_and_acyclic() {
+    #[kani::unwind(4)]
+    #[kani::stub(<crate::object::ObjHashMap as crate::object::verif_c02_cycles::PEq>::eq, hash_map_eq_not_modelled)]
+    #[kani::stub(<crate::object::ObjTuple as crate::object::verif_c02_cycles::PEq>::eq, tuple_eq_not_modelled)]
+    fn c02_vec_eq_terminates_on_self_containing() {
         let mut a = Placed::new(RefCell::new(ObjVec::new(Gc::dangling())));
         let ga = a.gc();
         ga.borrow_mut().elements.push(Value::ObjVec(ga));
+        kani::cover!(true, "reach");
         assert!(Value::ObjVec(ga) == Value::ObjVec(ga), "a self-containing vector equals itself");
+        std::mem::forget(a);
+    }
+
+    /// Control 2: two separately built acyclic nestings of depth 2 terminate within the same bound and
+    /// give the element-wise answer - so the failed unwinding assertion of the mutual case is not an
+    /// artefact of the bound.
+    #[kani::proof]
+    #[kani::unwind(4)]
+    #[kani::stub(<crate::object::ObjHashMap as crate::object::verif_c02_cycles::PEq>::eq, hash_map_eq_not_modelled)]
+    #[kani::stub(<crate::object::ObjTuple as crate::object::verif_c02_cycles::PEq>::eq, tuple_eq_not_modelled)]
+    fn c02_vec_eq_terminates_on_acyclic_nesting() {
         let x: f64 = kani::any();
         let mut i1 = Placed::new(RefCell::new(ObjVec::with_elements(Gc::dangling(), vec![Value::Number(x)])));
         let mut i2 = Placed::new(RefCell::new(ObjVec::with_elements(Gc::dangling(), vec![Value::Number(x)])));
@@ -41,7 +67,6 @@ mod verif_c02_cycles {
         let eq = Value::ObjVec(o1.gc()) == Value::ObjVec(o2.gc());
         kani::cover!(eq, "reach-equal");
         assert!(eq == (x == x), "separately built nestings compare element-wise (NaN != NaN)");
-        std::mem::forget(a);
         std::mem::forget(i1);
         std::mem::forget(i2);
         std::mem::forget(o1);
@@ -50,7 +75,9 @@ mod verif_c02_cycles {
 
     /// Twin: must FAIL.
     #[kani::proof]
-    #[kani::unwind(6)]
+    #[kani::unwind(4)]
+    #[kani::stub(<crate::object::ObjHashMap as crate::object::verif_c02_cycles::PEq>::eq, hash_map_eq_not_modelled)]
+    #[kani::stub(<crate::object::ObjTuple as crate::object::verif_c02_cycles::PEq>::eq, tuple_eq_not_modelled)]
     fn c02_cycles_twin_must_fail() {
         let mut a = Placed::new(RefCell::new(ObjVec::new(Gc::dangling())));
         let ga = a.gc();
